@@ -271,6 +271,7 @@ def generate(run_seed, fault_config="none", jit=False, max_ops=14, meta=None):
                    ("caller_edit", 2.5), ("run_yadism", 0.8)]
         if runners:
             choices.append(("run", 5))
+            choices.append(("touch", 1.2))
         if outputs:
             choices.append(("scribble", 2))
         kind = cards.wchoice(ops_rng, choices)
@@ -286,6 +287,11 @@ def generate(run_seed, fault_config="none", jit=False, max_ops=14, meta=None):
         elif kind == "run":
             op["runner"] = ops_rng.choice(runners)
             outputs.append(op["id"])
+        elif kind == "touch":
+            # the other public entry points of a live runner: one observable, one element, drop_cache
+            op["runner"] = ops_rng.choice(runners)
+            op["how"] = ops_rng.choice(["sf_get_result", "elem_get_result", "drop_cache", "sf_get_result"])
+            op["which"] = ops_rng.randrange(6)
         elif kind == "caller_edit":
             op["edit"] = gen_edit(ops_rng, shared, cardsd)
         elif kind == "scribble":
@@ -295,11 +301,12 @@ def generate(run_seed, fault_config="none", jit=False, max_ops=14, meta=None):
         if fault_rate and kind in ("upgrade", "upgrade_twice") and frng.random() < fault_rate:
             # an interrupt at an arbitrary source line of the legacy-card upgrade
             faults.append({"site": "line", "call": frng.randrange(0, 45), "do": "interrupt_line"})
-        if fault_rate and kind in ("construct", "run", "run_yadism") and frng.random() < fault_rate:
+        if fault_rate and (kind in ("construct", "run", "run_yadism") or (kind == "touch" and op["how"] != "drop_cache")) \
+                and frng.random() < fault_rate:
             import math as _m
 
             if frng.random() < 0.4:
-                hi = 260 if kind != "run" else 400
+                hi = 260 if kind not in ("run", "touch") else 400
                 faults.append({"site": "line", "call": int(_m.exp(frng.random() * _m.log(hi))) - 1, "do": "interrupt_line"})
             elif kind == "construct":
                 faults.append({"site": "get_esf", "call": frng.randrange(0, 6), "do": "interrupt_get_esf"})
@@ -700,6 +707,41 @@ class Execution:
                                       "runner": op["runner"], "tags": tags}
             self.log(i, kind, op["runner"], self.outputs[op["id"]]["digest"])
             return
+        if kind == "touch":
+            rec = self.runners.get(op["runner"])
+            if rec is None or not rec["ok"]:
+                self.skipped += 1
+                self.log(i, kind, "skipped")
+                return
+            r = rec["runner"]
+            self.probes["touch_" + op["how"]] += 1
+            try:
+                if op["how"] == "drop_cache":
+                    r.drop_cache()
+                else:
+                    names = sorted(r.observables)
+                    if not names:
+                        self.skipped += 1
+                        return
+                    sf = r.observables[names[op["which"] % len(names)]]
+                    if op["how"] == "sf_get_result":
+                        sf.get_result()
+                    else:
+                        els = getattr(sf, "elements", [])
+                        if els:
+                            els[op["which"] % len(els)].get_result()
+            except SimInterrupt:
+                self.interrupted += 1
+                self.probes["failure_path_taken"] += 1
+                self.log(i, kind, op["how"], "interrupted")
+                return
+            except Exception as e:  # noqa: BLE001
+                self.rejected += 1
+                self.probes["failure_path_taken"] += 1
+                self.log(i, kind, op["how"], "raise", type(e).__name__)
+                return
+            self.log(i, kind, op["how"], "ok")
+            return
         if kind == "run_yadism":
             t, o = self.card_objs[op["theory"]], self.card_objs[op["obs"]]
             snap = (copy.deepcopy(t), copy.deepcopy(o))
@@ -849,6 +891,9 @@ def normalise(trace):
             if op["runner"] not in runners:
                 continue
             outputs.add(op["id"])
+        elif k == "touch":
+            if op["runner"] not in runners:
+                continue
         elif k == "run_yadism":
             outputs.add(op["id"])
         elif k == "scribble":
